@@ -2,8 +2,15 @@
 SPEC = {
     "bins": [
         {"name": "c05", "pkg": "./zz_verif/c05", "run": ".", "shards": {"quick": 4, "thorough": 16}},
-        {"name": "c05-wb-ed25519", "pkg": "./sign/ed25519", "run": "^TestVerifC05", "whitebox": True, "shards": {"quick": 1, "thorough": 8}},
-        {"name": "c05-wb-goldilocks", "pkg": "./ecc/goldilocks", "run": "^TestVerifC05", "whitebox": True, "shards": {"quick": 1, "thorough": 8}},
+        # the white-box field / scalar / decoding sub-checks also run on the other arithmetic back-ends: purego build and
+        # GODEBUG cpu.* switches (legacy assembly of math/fp25519, math/fp448) — quick: default, all-off, purego; thorough: all six
+        {"name": "c05-wb-ed25519", "pkg": "./sign/ed25519", "run": "^TestVerifC05", "whitebox": True, "configs": CPU_OFF,
+         "quick_configs": ["default", "alloff", "purego"], "shards": {"quick": 1, "thorough": 4}},
+        {"name": "c05-wb-goldilocks", "pkg": "./ecc/goldilocks", "run": "^TestVerifC05", "whitebox": True, "configs": CPU_OFF,
+         "quick_configs": ["default", "alloff", "purego"], "shards": {"quick": 1, "thorough": 4}},
+        # the enumeration of all small-order encodings as public key (black-box) on the same back-ends
+        {"name": "c05-special", "pkg": "./zz_verif/c05", "run": "^TestC05Special$", "configs": [c for c in CPU_OFF if c["name"] in ("alloff", "purego")],
+         "shards": {"quick": 1, "thorough": 1}},
     ],
     "rule": "sign/*: case = (variant, seed, message, context) with edge-biased seeds (all-zero, all-ones, single bit, counting, random), message lengths around the SHA-512/SHAKE block "
             "boundaries and context lengths {0,1,..,254,255}; non-trivial = the seed is an edge pattern, the message length is a block-boundary length or the context length is 1/254/255. "
